@@ -368,32 +368,56 @@ def run(prog, ctx):
     # ---------------- C04.T trim / reset
     tr = C.fn_one(prog, T, "trim")
     if tr is not None:
+        # by value: the rebuild is reached exactly when more than 2^lg_nom hashes are retained, whatever the table's allocated size
         s = Sym(prog, tr)
+        rb = [b for b, site in tr.calls() if (site.get("callee") or "").endswith("::rebuild")]
+        verdict, wit = None, "no call of rebuild in trim"
+        if rb:
+            pp = C.path_pred(s, rb[0])
+            verdict = True
+            n_ev = 0
+            for lg in (5, 8):
+                k = 1 << lg
+                for n in (0, 1, k - 1, k, k + 1, 2 * k - 3):
+                    for m in (k // 2, k, 2 * k, 4 * k):
+                        if n > m:
+                            continue
+                        env = {"@prog": prog, "self.num_entries": n, "self.lg_nom_size": lg, "self.lg_cur_size": max(1, m.bit_length() - 1),
+                               "self.entries": [0] * m, "len(self.entries)": m}
+                        r = pp(env)
+                        if r is None:
+                            continue
+                        n_ev += 1
+                        if r != (n > k) and verdict:
+                            verdict = False
+                            wit = "with %d retained hashes in a table of %d slots (k = %d) trim %s" % (n, m, k, "rebuilds" if r else "does not rebuild")
+            if not n_ev:
+                verdict, wit = None, "trim condition not evaluable"
+        res.tri(verdict, "C04.T", "C04.T|trim", "%s: %s (expected: rebuild exactly when num_entries > 2^lg_nom_size)" % (tr.id, wit), tr.id)
+    # the public trim hands over to the table's trim on every path: a path that skips it has to be conditioned on the number of
+    # retained hashes (an exact-mode sketch can hold up to 15/16 * 2k of them)
+    ptr = C.pub_fn(prog, "theta::sketch::ThetaSketch", "trim")
+    if ptr is not None and tr is not None:
+        sp_ = Sym(prog, ptr, ifconv=False)
+        calls_ = set(b for b, site in ptr.calls() if site.get("callee") == tr.id)
         res.obligations += 1
-        ok = False
-        for b, site in tr.calls():
-            if (site.get("callee") or "").endswith("::rebuild"):
-                for x in s.cmp_facts_at(b):
-                    if len(x) == 3 and x[0] in ("Gt", "Lt"):
-                        a, c = (x[1], x[2]) if x[0] == "Gt" else (x[2], x[1])
-                        lg = C.shl_one_amount(c)
-                        if show(a).endswith("num_entries") and lg is not None and show(lg).endswith("lg_nom_size"):
-                            ok = True
-        loose_t = False
-        for b, site in tr.calls():
-            if (site.get("callee") or "").endswith("::rebuild"):
-                for x in s.cmp_facts_at(b):
-                    if len(x) == 3 and x[0] in ("Ge", "Le"):
-                        a, c = (x[1], x[2]) if x[0] == "Ge" else (x[2], x[1])
-                        lg = C.shl_one_amount(c)
-                        if show(a).endswith("num_entries") and lg is not None and show(lg).endswith("lg_nom_size"):
-                            loose_t = True
-        if ok:
-            res.discharged += 1
-        elif loose_t:
-            res.violate("C04.T", "C04.T|trim", "trim rebuilds already at num_entries == 2^lg_nom_size (expected strictly more)", tr.id)
-        else:
+        if not calls_:
             res.undecided += 1
+        elif any(sp_.reaches_exit_avoiding(0, calls_) for _ in (0,)):
+            # some path from the entry returns without the table's trim: which decisions lead there?
+            skip_ok = True
+            rets = [b.idx for b in ptr.blocks if b.term[0] == "return" and not b.cleanup]
+            s2 = Sym(prog, ptr)
+            conds = []
+            for pth in (s2.path_conditions(rets[0]) or []) if rets else []:
+                conds.extend(show(c) for c, tv in pth)
+            if any("num_entries" in c or "num_retained" in c or "len(" in c for c in conds):
+                res.undecided += 1
+            else:
+                res.violate("C04.T", "C04.T|public-trim", "%s can return without trimming the table under a condition that does not look at the number of retained hashes (%s): "
+                            "an exact-mode sketch holds up to 15/16 of 2k hashes, more than k" % (ptr.id, conds[:2]), ptr.id)
+        else:
+            res.discharged += 1
     rs = C.fn_one(prog, T, "reset")
     if rs is not None:
         res.obligations += 1
@@ -448,6 +472,14 @@ def run(prog, ctx):
                 verdict = None
             res.tri(verdict, "C04.P", "C04.P|compact", "ThetaSketch::compact: %s" % wit, cp.id)
     res.rule("C04.P", n_p, 1, "compact(): theta and emptiness of the compact form")
+    # an index found by a probe is used before the table can be resized / rebuilt
+    bad_ = list(C.stale_index_stores(prog, T, "entries"))
+    for f_, sb_, gcal_ in bad_:
+        res.violate("C04.I", "C04.I|%s" % f_.id, "%s stores into the table at an index obtained before the call of %s, which can reallocate it" % (f_.id, gcal_), f_.id)
+    res.obligations += 1
+    if not bad_:
+        res.discharged += 1
+    res.rule("C04.I", 1, 1, "probe index used before the table can be reallocated")
     res.explanation = ("structural rules over the %d functions reachable from ThetaSketch::{update,trim,reset,compact} and the builder: screen formula, "
                        "theta writers, insert/count pairing, capacity check post-domination and thresholds, probe geometry at call sites, replay loops, "
                        "trim/reset" % len(reach))
